@@ -148,6 +148,11 @@ class MessageSigner(object):
         # Decode base64 and a bitmask in first byte.
         is_compressed, recid, r, s = self._decode_signature(signature)
 
+        order = self._generator.order()
+        if not (1 <= r < order and 1 <= s < order):
+            # r = 0 (mod order) has no inverse: the pure-Python inverse_mod asserts, OpenSSL returns garbage
+            raise EncodingError("r or s out of range")
+
         # Calculate the specific public key used to sign this message.
         y_parity = recid & 1
         pairs = self._generator.possible_public_pairs_for_signature(
